@@ -82,7 +82,7 @@ theorem stepA_crash (o v : Nat) (s : State) (w : String) : StepA o v s (s.crash 
 
 theorem stepA_count (cfg : Cfg) (o v : Nat) (s : State) (t : Int) : StepA o v s (countMsg cfg s t) := by
   unfold countMsg; split
-  · exact StepA.refl o v s
+  · exact stepA_same rfl rfl rfl
   · exact stepA_same rfl rfl rfl
 
 theorem stepA_filter (o v : Nat) (s : State) (u : Nat) : StepA o v s { s with mods := s.mods.filter (·.uid != u) } := by
@@ -700,16 +700,16 @@ theorem ta_infoAll : ∀ (ms : List Module) {s : State}, Top cfg s → TA cfg s 
 
 theorem ta_ticks {s : State} (h : Top cfg s) : TA cfg s (ticks cfg s) := by
   unfold ticks
-  have h1 : TA cfg s (if cfg.timing && s.now - s.tTiming > 900 then { sendTiming cfg s with tTiming := s.now } else s) := by
+  have h1 : TA cfg s (if cfg.timing && s.now - s.tTiming > cfg.pTiming then { sendTiming cfg s with tTiming := s.now } else s) := by
     split
     · unfold sendTiming
       have a1 : TA cfg s ({ s with counts := [], inTraffic := true } : State) := ta_same ok hmt hord hfuel h _ rfl rfl rfl rfl rfl
       exact (a1.bind (fun h' => ta_fwd ok hmt hord hfuel h' _ (fun _ => rfl))).bind
         (fun h' => ta_same ok hmt hord hfuel h' _ rfl rfl rfl rfl rfl)
     · exact TA.refl h
-  generalize (if cfg.timing && s.now - s.tTiming > 900 then { sendTiming cfg s with tTiming := s.now } else s) = s1 at h1
+  generalize (if cfg.timing && s.now - s.tTiming > cfg.pTiming then { sendTiming cfg s with tTiming := s.now } else s) = s1 at h1
   dsimp only
-  have h2 : TA cfg s (if s1.now - s1.tTraffic > 1000 then sendTraffic cfg s1 else s1) := by
+  have h2 : TA cfg s (if s1.now - s1.tTraffic > cfg.pTraffic then sendTraffic cfg s1 else s1) := by
     split
     · unfold sendTraffic
       have a1 : TA cfg s ({ s1 with inTraffic := true } : State) := h1.bind (fun h' => ta_same ok hmt hord hfuel h' _ rfl rfl rfl rfl rfl)
@@ -720,7 +720,7 @@ theorem ta_ticks {s : State} (h : Top cfg s) : TA cfg s (ticks cfg s) := by
       obtain ⟨p, _, rfl⟩ := List.mem_map.mp hf
       rfl
     · exact h1
-  generalize (if s1.now - s1.tTraffic > 1000 then sendTraffic cfg s1 else s1) = s2 at h2
+  generalize (if s1.now - s1.tTraffic > cfg.pTraffic then sendTraffic cfg s1 else s1) = s2 at h2
   split
   · unfold sendActive
     exact (((h2.bind (fun h' => ta_log ok hmt hord hfuel h' 10)).bind (fun h' => ta_infoAll ok hmt hord hfuel _ h')).bind
